@@ -22,11 +22,21 @@ func (i *Interpreter) resolveIncludeStatement(statements []ast.Statement, isRoot
 				}
 				continue
 			}
+			// A module which includes itself, directly or through other modules, would be resolved forever
+			name := include.Module.Value
+			if _, ok := i.including[name]; ok {
+				return nil, exception.Runtime(&stmt.GetMeta().Token, "VCL module '%s' is included recursively", name)
+			}
 			included, err := i.includeFile(include, isRoot)
 			if err != nil {
 				return nil, exception.Runtime(&stmt.GetMeta().Token, "%s", err.Error())
 			}
+			if i.including == nil {
+				i.including = make(map[string]struct{})
+			}
+			i.including[name] = struct{}{}
 			recursive, err := i.resolveIncludeStatement(included, isRoot)
+			delete(i.including, name)
 			if err != nil {
 				return nil, err
 			}
